@@ -23,6 +23,8 @@ Local Open Scope list_scope.
    Rust string literal; its source text is [lit v]. *)
 Inductive meta :=
 | MRename (v : str)                       (* rename = <lit v> *)
+| MRenameP (l : list (bool * str))        (* rename(serialize = <lit>, deserialize = <lit>): entries in
+                                             source order, true = serialize *)
 | MSkip                                   (* skip *)
 | MOther (name : str) (v : option str).   (* name   or   name = <lit v> *)
 Definition group := list meta.            (* one #[serde(m1, m2, ...)] attribute *)
@@ -31,7 +33,17 @@ Record item := { it_ident : str; it_attrs : list group }.
 Inductive rule := RLower | RUpper | RPascal | RCamel | RSnake | RScreamingSnake | RKebab | RScreamingKebab.
 Inductive cmeta :=
 | CRenameAll (v : str)                    (* rename_all = <lit v> *)
-| CFlag (name : str).                     (* deny_unknown_fields, default, ... *)
+| CRenameAllP (l : list (bool * str))     (* rename_all(serialize = <lit>, deserialize = <lit>) *)
+| CFlag (name : str)                      (* deny_unknown_fields, default, ... *)
+| CKV (name : str) (v : str).             (* tag = <lit>, rename = <lit> (container rename), rename_all_fields = <lit>, ... *)
+(* shape of an enum variant: StructParser::parse_enum marks the FieldInfo of a variant with rust_type
+   enum_variant / enum_variant_tuple / enum_variant_struct and FieldContext::from_field_info names an
+   item by the variant routine iff rust_type starts with enum_variant - for all three shapes. The
+   test [is_struct k] in emit_raw below stands for that test (variant_marker_is_variant in the proofs). *)
+Inductive shape := SUnit | STuple | SStructV.
+Definition variant_marker (sh : shape) : str :=
+  match sh with SUnit => L "enum_variant" | STuple => L "enum_variant_tuple" | SStructV => L "enum_variant_struct" end.
+Definition named_as_variant (rust_type : str) : bool := starts (L "enum_variant") rust_type.
 Inductive kind := KStruct | KEnum.
 Record container := { c_kind : kind; c_attrs : list (list cmeta); c_items : list item }.
 
@@ -60,9 +72,21 @@ Fixpoint tok_go (first : bool) (l : list tt) : str :=
   end.
 Definition tok_string (l : list tt) : str := tok_go true l.
 
+Fixpoint sep_tokens {A} (f : A -> list tt) (l : list A) : list tt :=
+  match l with
+  | [] => []
+  | [m] => f m
+  | m :: r => f m ++ TPunct "," :: sep_tokens f r
+  end.
+(* the parenthesised serialize / deserialize form: a Parenthesis group prints as ( inner ) with the
+   inner tokens space-separated and no padding; it is carried here as one verbatim token *)
+Definition side_name (b : bool) : str := if b then L "serialize" else L "deserialize".
+Definition sd_tokens (p : bool * str) : list tt := [TIdent (side_name (fst p)); TPunct "="; TLit (lit (snd p))].
+Definition paren_text (l : list (bool * str)) : str := "(" :: tok_string (sep_tokens sd_tokens l) ++ [")"].
 Definition meta_tokens (m : meta) : list tt :=
   match m with
   | MRename v => [TIdent (L "rename"); TPunct "="; TLit (lit v)]
+  | MRenameP l => [TIdent (L "rename"); TLit (paren_text l)]
   | MSkip => [TIdent (L "skip")]
   | MOther n None => [TIdent n]
   | MOther n (Some v) => [TIdent n; TPunct "="; TLit (lit v)]
@@ -70,13 +94,9 @@ Definition meta_tokens (m : meta) : list tt :=
 Definition cmeta_tokens (m : cmeta) : list tt :=
   match m with
   | CRenameAll v => [TIdent (L "rename_all"); TPunct "="; TLit (lit v)]
+  | CRenameAllP l => [TIdent (L "rename_all"); TLit (paren_text l)]
   | CFlag n => [TIdent n]
-  end.
-Fixpoint sep_tokens {A} (f : A -> list tt) (l : list A) : list tt :=
-  match l with
-  | [] => []
-  | [m] => f m
-  | m :: r => f m ++ TPunct "," :: sep_tokens f r
+  | CKV n v => [TIdent n; TPunct "="; TLit (lit v)]
   end.
 Definition group_string (g : group) : str := tok_string (sep_tokens meta_tokens g).
 Definition cgroup_string (g : list cmeta) : str := tok_string (sep_tokens cmeta_tokens g).
